@@ -430,7 +430,8 @@ func (f *Font) GlyphName(gid glyph.ID) string {
 	case *cff.Outlines:
 		return f.Glyphs[gid].Name
 	case *glyf.Outlines:
-		if f.Names == nil {
+		if int(gid) >= len(f.Names) {
+			// the "post" table may list fewer names than there are glyphs
 			return ""
 		}
 		return f.Names[gid]
